@@ -397,9 +397,25 @@ def rule_w3_w4(chk: Check, sinks: list[FunctionInfo]) -> None:
                             break
                         if node.stack == hdr_def.stack:
                             st_body = stt_
+                    s_expr = status_expr
                     if body.stack == hdr_def.stack:
                         st_body = seen_state.get(body.id, st_body)
-                    v = interp.eval(status_expr, st_body) if st_body is not None else None
+                    else:
+                        # the header was assembled in a helper: follow its status parameter back
+                        # to the expression the writing function passed, and evaluate that at the
+                        # body write
+                        from ..flow import _bindings
+
+                        stack, e2 = hdr_def.stack, status_expr
+                        while stack != body.stack and stack and len(stack) > len(body.stack):
+                            b_ = _bindings(g.nodes[stack[-1]])
+                            if isinstance(e2, ast.Name) and e2.id in b_:
+                                e2, stack = b_[e2.id], stack[:-1]
+                            else:
+                                break
+                        if stack == body.stack and body.id in seen_state:
+                            s_expr, st_body = e2, seen_state[body.id]
+                    v = interp.eval(s_expr, st_body) if st_body is not None else None
                     if isinstance(v, IntV):
                         stv = v
                 if stv is None or not stv.within(20, 29):
@@ -538,7 +554,9 @@ def _surrogate_free(defs: Defs, node, e: ast.AST, depth: int = 0) -> bool:
     if isinstance(e, ast.Name):
         ds = defs.at(node, e.id)
         if not ds:
-            return False
+            # a module-level string constant (possibly imported)
+            cv = _PROJ7[0].const_value(node.func.module, e.id) if _PROJ7[0] is not None else None
+            return isinstance(cv, (str, int))
         for dn, val, sel in ds:
             if val is None or sel is not None:
                 return False  # parameter, loop target, unpacking ...
@@ -550,6 +568,9 @@ def _surrogate_free(defs: Defs, node, e: ast.AST, depth: int = 0) -> bool:
     if isinstance(e, ast.IfExp):
         return sf(e.body) and sf(e.orelse)
     return False
+
+
+_PROJ7: list = [None]
 
 
 def _int_like(v: ast.AST) -> bool:
@@ -585,6 +606,7 @@ def _contained(proj, ci: ClassInfo, fi: FunctionInfo, inner: ast.AST, seen: set,
 def rule_w7(chk: Check, sinks: list[FunctionInfo]) -> None:
     chk.rule("W7", "sink totality: a strict .encode() of text supplied by a handler or middleware, evaluated in a response sink before anything is written, cannot leave the protocol callback uncaught (it would end the connection without any response)")
     ci = chk.proj.cls(SERVER_PROTO)
+    _PROJ7[0] = chk.proj
     n = 0
     for fi in sinks:
         g = build_cfg(chk.proj, fi)
